@@ -849,6 +849,20 @@ def p4_bracket(ctx: Ctx):
                               f'got {norm(v)[:120]}: cursors would be forwarded by edits of another walk or against another source')
                 else:
                     ctx.bad(rel, r.ast, q, norm(r.ast), 'the aimed walk does not return an EditLog')
+        # ... and no result leaves apply_with_edits ahead of the aimed walk either: a shortcut return ("nothing to do
+        # here") answers before anybody asked whether `where` names a site, so every index is accepted
+        cs_any = [x for x in cfg.nodes if any((call_name(c) or '').endswith('.check_site') for c in _calls(x))]
+        from ..dataflow import guards_of, parent_map
+        pm_awe = parent_map(awe)
+        for r in cfg.returns():
+            unaimed = any(arm == 'then' and 'where is None' in norm(g).replace('(', '').replace(')', '').split(' or ')[0] and ' or ' not in norm(g)
+                          for g, arm in guards_of(awe, r.ast, pm_awe))
+            if unaimed:
+                continue            # taken only when nothing is aimed at: there is no `where` to validate
+            p = find_path(cfg, cfg.entry, r, avoid=lambda x: x in cs_any)
+            ctx.check(p is None, rel, r.ast, q, f'`{norm(r.ast)[:60]}` is reached only through check_site',
+                      'a result is returned without validating `where`: for a function with no candidate, `where=0`, `where=1`, a cursor ... are all accepted and return the program unchanged',
+                      path=describe_path(p, rel) if p else None)
         # listing and rewriting construct the same rewriter class, and hand over `within`
         for m, lister in (('sites', 'list_sites'), ('refusals', 'list_refusals')):
             f = meths.get(m)
@@ -1588,6 +1602,8 @@ T = 'fpy2/transform/'
 FU, SL, WU, RI, FI = T + 'for_unroll.py', T + 'split_loop.py', T + 'while_unroll.py', T + 'round_insert.py', T + 'func_inline.py'
 
 MUTANTS = [
+    Mutant('leaf-function-returned-before-the-aim-is-checked', FI, "        cg = CallGraph.analyze(func)\n\n        if funcs is not None:", "        cg = CallGraph.analyze(func)\n        if not cg.call_sites[func]:\n            return EditLog(func, func, (), exprs_preserved=True)\n\n        if funcs is not None:", 'C19.P4',
+           'seeded change C19e: inline(leaf, 3) returns the program unchanged instead of raising'),
     Mutant('zero-unroll-count-skips-the-listing', FU, "        if not aimed:\n            return super()._visit_for(stmt, ctx)\n        if self.listing:", "        if not (aimed and self.times > 0):\n            return super()._visit_for(stmt, ctx)\n        if self.listing:", 'C19.P2',
            'finding F94 before its repair: sites(unroll_for, f, times=0) is [] while every index below the loop count is accepted'),
     Mutant('refusals-for-the-default-times', FU, "        return _lister(func, times, strategy).list_refusals(within)", "        return _lister(func, 1, strategy).list_refusals(within)", 'C19.T1',
